@@ -25,6 +25,8 @@ def boundary_cases(strength):
         ("sl/tet/P1", "tet", ("P", 1, {}), None, ("P", 1, {}), "sl", None, "evaluate"),
         ("dl/tet/DP0seg0", "tet", ("DP", 0, {"segments": [0]}), None, ("DP", 0, {"segments": [0]}), "dl", 1.0 + 0.5j,
          "sparse"),
+        ("dl/strip2/DP0swapped", "strip2", ("DP", 0, {"swapped_normals": [1]}), None, ("DP", 0, {"swapped_normals": [1]}),
+         "dl", None, "evaluate"),
         ("adl/strip3/P1b", "strip3", ("P", 1, {"include_boundary_dofs": True}), None,
          ("P", 1, {"include_boundary_dofs": True}), "adl", 0.75, "evaluate"),
         ("hyp/tet/P1", "tet", ("P", 1, {}), None, ("P", 1, {}), "hyp", 1.25 + 0.25j, "evaluate"),
@@ -60,7 +62,7 @@ def boundary_cases(strength):
 
 def potential_cases(strength):
     cases = [("psl/tet/P1", "tet", ("P", 1, {}), "psl", None),
-             ("pdl/strip3/DP0", "strip3", ("DP", 0, {}), "pdl", 1.0 + 0.25j),
+             ("pdl/strip3/DP0", "strip3", ("DP", 0, {"swapped_normals": [1]}), "pdl", 1.0 + 0.25j),
              ("pefield/tet/RWG", "tet", ("RWG", 0, {}), "pefield", 0.75),
              ("pmfield/tet/RWGseg1", "tet", ("RWG", 0, {"segments": [1], "include_boundary_dofs": True}), "pmfield",
               1.0 + 0.5j),
